@@ -37,22 +37,23 @@ const (
 
 // histSpec is the generated description of one history (also written into witnesses).
 type histSpec struct {
-	Idx      int               `json:"idx"`
-	Kind     string            `json:"kind"` // direct | ingest | crash
-	Scenario string            `json:"scenario"`
-	TZ       string            `json:"tz"`
-	Seed     int64             `json:"seed"`
-	Tier     string            `json:"tier"`
-	Src      int64             `json:"source_interval_ms"`
-	Month    int64             `json:"month_type_interval_ms"` // 0 = not configured
-	Year     int64             `json:"year_type_interval_ms"`  // 0 = not configured
-	Spots    []calendarSpot    `json:"source_families"`
-	SpotsAt  []string          `json:"source_families_at"`
-	Steps    []string          `json:"steps"`
-	Gen      blocks.GenOptions `json:"gen"`
-	Metrics  []string          `json:"metrics,omitempty"`
-	Files    []string          `json:"files,omitempty"` // description of every flushed file, filled while running
-	MaxImgs  int               `json:"max_images,omitempty"`
+	Idx       int               `json:"idx"`
+	Kind      string            `json:"kind"` // direct | ingest | crash
+	Scenario  string            `json:"scenario"`
+	TZ        string            `json:"tz"`
+	Seed      int64             `json:"seed"`
+	Tier      string            `json:"tier"`
+	Src       int64             `json:"source_interval_ms"`
+	Month     int64             `json:"month_type_interval_ms"` // 0 = not configured
+	Year      int64             `json:"year_type_interval_ms"`  // 0 = not configured
+	Spots     []calendarSpot    `json:"source_families"`
+	SpotsAt   []string          `json:"source_families_at"`
+	Steps     []string          `json:"steps"`
+	Gen       blocks.GenOptions `json:"gen"`
+	Metrics   []string          `json:"metrics,omitempty"`
+	Files     []string          `json:"files,omitempty"` // description of every flushed file, filled while running
+	MaxImgs   int               `json:"max_images,omitempty"`
+	GateFirst bool              `json:"gate_first_target,omitempty"`
 }
 
 func (s *histSpec) targets() []int64 {
@@ -1280,6 +1281,8 @@ func (h *hist) run(dir string) {
 			h.checkAfter("reopen")
 		case "crash":
 			h.crashStep(dir)
+		case "shutdown":
+			h.shutdownStep()
 		}
 		h.prevOp = name
 	}
